@@ -15,14 +15,14 @@ import (
 // PForm: one way an encoder renders a value, aggregated over the paths that
 // produce the same octet expressions.
 type PForm struct {
-	Oct    []*Term
-	Open   bool
-	Pay    []ssa.Value
-	IsErr  bool // the path returns a non-nil error
-	IsNil  bool // returns a nil slice with nil error
-	Pos    string
-	Envs   []Env // one per contributing path
-	sig    string
+	Oct     []*Term
+	Open    bool
+	Pay     []ssa.Value
+	IsErr   bool // the path returns a non-nil error
+	IsNil   bool // returns a nil slice with nil error
+	Pos     string
+	Envs    []Env // one per contributing path
+	sig     string
 	Unknown bool // the returned slice could not be modelled
 }
 
